@@ -296,9 +296,31 @@ def oracle_loader(ck, rng):
             ok = exc <= 2e-4 * max(1.0, scale)
             detail = f"molecule-frame displacement exceeds max_shifts by {exc:.5f} nm" if not ok else ""
             # multi-template entry and group entry with scalar limit
-            out2 = ld.align_multi_templates([tmpl, tmpl[::-1].copy()], max_shifts=lim, alignment_model=models()[model])
-            if not np.all(np.isfinite(out2.molecules.pos)):
-                ok, detail = False, "align_multi_templates returned non-finite positions"
+            # every entry point is bounded alike: multi-template (direct, and through align with a list / 4-D stack), batch, group
+            from acryo import BatchLoader
+            t2 = [tmpl, tmpl[::-1].copy()]
+            b = BatchLoader(order=1, scale=scale, output_shape=tmpl.shape)
+            b.add_tomogram(tomo, mol, image_id=0)
+            molg = Molecules(pos, rot, features={"g": [0, 1, 0, 1]})
+            ldg = SubtomogramLoader(tomo, molg, order=1, scale=scale)
+            entries = [("align_multi_templates", lambda: ld.align_multi_templates(t2, max_shifts=lim, alignment_model=models()[model]).molecules),
+                       ("align(list of templates)", lambda: ld.align(t2, max_shifts=lim, alignment_model=models()[model]).molecules),
+                       ("align(4-D stack)", lambda: ld.align(np.stack(t2), max_shifts=lim, alignment_model=models()[model]).molecules),
+                       ("batch.align(list of templates)", lambda: b.align(t2, max_shifts=lim, alignment_model=models()[model]).molecules),
+                       ("group.align", lambda: Molecules.concat([l_.molecules for _, l_ in sorted(ldg.groupby("g").align(tmpl, max_shifts=lim, alignment_model=models()[model]), key=lambda kv: kv[0])]))]
+            for ename, fn in entries[(i % 2)::2] if ck.tier == "quick" else entries:
+                mo = fn()
+                ref = mol.pos if ename != "group.align" else np.concatenate([mol.pos[[0, 2]], mol.pos[[1, 3]]])
+                rr = mol.rotator if ename != "group.align" else Rotation.concatenate([mol.rotator[[0, 2]], mol.rotator[[1, 3]]])
+                if not np.all(np.isfinite(mo.pos)):
+                    ok, detail = False, f"{ename} returned non-finite positions"
+                    break
+                dd = mo.pos - ref
+                loc = np.stack([rr[k].inv().apply(dd[k]) for k in range(4)])
+                exc2 = np.abs(loc).max() - lim
+                if exc2 > 2e-4 * max(1.0, scale):
+                    ok, detail = False, f"{ename}: molecule-frame displacement exceeds max_shifts by {exc2:.5f} nm"
+                    break
         except Exception as e:  # noqa
             ok, detail = False, f"raised {type(e).__name__}: {e}"
         ck.oracle_count("loader_displacement", 1, 1)
